@@ -29,6 +29,35 @@ func VerifC15IntToFloat() {
 	verifAssert(float64(g) == want, "int to float conversion rounds to nearest, ties to even")
 }
 
+// the top of the double range: integers m * 2^e with a symbolic 64-bit m and
+// e up to 960 reach past 2^1024. Those that round to a finite double convert
+// to it, the others (from 2^1024 - 2^970 on, where rounding to nearest goes to
+// 2^1024) raise OverflowError - never infinity.
+//
+//verif:property C15
+//verif:bigw 1100
+//verif:expect called
+func VerifC15IntToFloatHuge() {
+	m := verifUint64("m")
+	e := []uint{900, 959, 960, 961, 970}[verifChoice("e", 5)]
+	v := new(big.Int).SetUint64(m)
+	v.Lsh(v, e)
+	if verifBool("neg") {
+		v.Neg(v)
+	}
+	a := (*BigInt)(new(big.Int).Set(v))
+	got, err := MakeFloat(a)
+	verifReach("called")
+	want := verifBigToFloat(v)
+	if math.IsInf(want, 0) {
+		verifAssert(err != nil && c07ErrIs(err, OverflowError), "an int too large for a double raises OverflowError")
+		return
+	}
+	verifAssert(err == nil, "an int that rounds to a finite double converts")
+	g, ok := got.(Float)
+	verifAssert(ok && float64(g) == want, "int to float conversion rounds to nearest, ties to even, up to the largest double")
+}
+
 // exact comparison of an integer with a double, from first principles:
 // for integer n and finite f:  n < f  <=>  n < ceil(f);  n > f <=> n > floor(f); n == f <=> f integral and n == f
 func c15Cmp(av *big.Int, f float64) (lt, eq, gt bool) {
@@ -210,6 +239,49 @@ func VerifC15Round() {
 	verifAssert(err == nil, "no error")
 	want := verifFloatToBig(math.RoundToEven(f))
 	verifAssert(c07Same(got, want), "round(x) is the nearest integer, ties to even, as an int")
+}
+
+// round(x, n) for n >= 0 rounds x to n decimal places (correctly: the exact
+// value of x, ties to even, then the nearest double). Decimal conversion has no
+// SMT counterpart, so strconv.FormatFloat / ParseFloat are a contract model
+// (DESIGN.md 8.3) and what is decided is what correct rounding implies whatever
+// the digits: the result is a float with the sign of x, is zero when |x| is
+// below 0.4 units of the last place kept and not zero above 0.6 of one, stays
+// within half a unit (and one rounding error) of x, and leaves an integral x
+// alone - for every finite x and n in a list that spans 0 .. 401.
+//
+//verif:property C15
+//verif:havoc strconv.FormatFloat:contract
+//verif:timeout 600 2400
+//verif:expect called
+func VerifC15RoundDigits() {
+	f := verifFloat64("f")
+	verifAssume(!math.IsNaN(f) && !math.IsInf(f, 0))
+	digits := []int{0, 1, 2, 15, 17, 18, 21, 100, 300, 323, 324, 400, 401}
+	d := digits[verifChoice("ndigits", len(digits))]
+	var nd Object = Int(d)
+	if verifChoice("ndigits_rep", 2) == 1 {
+		nd = (*BigInt)(big.NewInt(int64(d)))
+	}
+	got, err := Float(f).M__round__(nd)
+	verifReach("called")
+	verifAssert(err == nil, "no error")
+	g, ok := got.(Float)
+	verifAssert(ok, "round(x, n) of a float is a float")
+	r := float64(g)
+	u := math.Pow(10, float64(-d)) // one unit of the last place kept (0 when it underflows)
+	verifAssert(!math.IsNaN(r) && !math.IsInf(r, 0), "the result is finite")
+	verifAssert(math.Signbit(r) == math.Signbit(f), "the result keeps the sign of x (a zero result too)")
+	if math.Abs(f) < 0.4*u {
+		verifAssert(r == 0, "a value below half a unit of the last place kept rounds to zero")
+	}
+	if math.Abs(f) > 0.6*u {
+		verifAssert(r != 0, "a value above half a unit of the last place kept does not round to zero")
+	}
+	verifAssert(math.Abs(r-f) <= 0.52*u+math.Abs(f)*math.Ldexp(1, -51), "the result is within half a unit of the last place kept of x")
+	if f == math.Trunc(f) {
+		verifAssert(r == f, "an integral value is left alone")
+	}
 }
 
 //verif:property C15
